@@ -35,13 +35,14 @@ def rule_r1(repo, run, table):
     if not cand:
         raise AnalysisError("C02.R1: the `if cls:` block handling `this` was not found")
     blk = cand[0]
-    static_if = [n for n in ast.walk(blk) if isinstance(n, ast.If) and pyflow.is_name(n.test, "is_static")]
+    static_if = [n for n in ast.walk(blk) if isinstance(n, ast.If) and pyflow.is_name(pyflow.if_arms(n)[0], "is_static")]
     run.check(R, "wrapc.Wrapc.wrap_function:static-split", len(static_if) == 1,
               "the method branch must distinguish static from instance methods", wc.loc(blk))
     if static_if:
         st = static_if[0]
-        sbody = "\n".join(wc.seg(s) for s in st.body)
-        ibody = "\n".join(wc.seg(s) for s in st.orelse)
+        _t, s_arm, i_arm = pyflow.if_arms(st)
+        sbody = "\n".join(wc.seg(s) for s in s_arm)
+        ibody = "\n".join(wc.seg(s) for s in i_arm)
         run.check(R, "wrapc.Wrapc.wrap_function:static", "CXX_this_call" in sbody and "namespace_scope" in sbody and
                   "class_scope" in sbody and "proto_list.append" not in sbody and "setup_this" not in sbody,
                   "a static method must be called through namespace_scope+class_scope and take no `this` parameter",
